@@ -43,7 +43,9 @@ def range_of(loop: ast.For, tr: Translator) -> Optional[RangeInfo]:
     if not (isinstance(it, ast.Call) and dotted_name(it.func) == 'range' and isinstance(loop.target, ast.Name)):
         return None
     try:
-        a = [tr.tr(x) for x in it.args]
+        # bounds may go through named intermediates of the enclosing blocks (`total = L + C; for i in range(C, total)`)
+        from .inline import inline_block_locals
+        a = [tr.tr(inline_block_locals(x, loop, keep=(loop.target.id,))) for x in it.args]
     except Unsupported:
         return None
     if len(a) == 1:
